@@ -66,6 +66,8 @@ def run_one(m, tier, seed, extra_props=None):
             viol = [l for l in r.stdout.splitlines() if l.startswith("VIOLATION")]
             detail = [l.strip() for l in r.stdout.splitlines() if l.startswith("  signature=") or "regression" in l]
             verdict = "CAUGHT" if (r.returncode == 1 and viol) else ("MISSED" if r.returncode == 0 else "RC=%d" % r.returncode)
+            if m.get("name", "").startswith("benign"):
+                verdict = {"CAUGHT": "FALSE-ALARM", "MISSED": "SILENT(ok)"}.get(verdict, verdict)
             tail = (detail[0][:160] if detail else (r.stdout.strip().splitlines()[-1][:160] if r.stdout.strip() else r.stderr.strip()[-200:]))
             res.append((m["name"], prop, verdict + "  " + tail))
     finally:
@@ -81,10 +83,17 @@ def main():
     ap.add_argument("--props")
     ap.add_argument("--jobs", type=int, default=2)
     ap.add_argument("--seed", type=int, default=0)
+    ap.add_argument("--benign", action="store_true",
+                    help="run design_assets/benign_changes.json instead: every check must stay silent (PASS)")
     a = ap.parse_args()
     sys.path.insert(0, VERIF)
     from sim.plans import PLANS
-    muts = [m for m in load() if (not a.only or a.only in m["name"])]
+    if a.benign:
+        with open(os.path.join(VERIF, "design_assets", "benign_changes.json")) as f:
+            src = [{"name": n, "kind": "replace", **m} for n, m in json.load(f)["mutants"].items()]
+    else:
+        src = load()
+    muts = [m for m in src if (not a.only or a.only in m["name"])]
     extra = a.props.split(",") if a.props else None
     muts = [m for m in muts if extra or any(p in PLANS for p in m["props"])]
     for m in muts:
